@@ -26,13 +26,14 @@ FORWARDS = {
 }
 
 
-ALIAS = {'all_neighbors': {'n': 'node'}}          # method parameter -> parameter of the functional form, where the names differ
+ALIAS = {'all_neighbors': {'n': 'node'}, 'has_predecessor': {'u': 'v', 'v': 'u'}}          # (has_predecessor(u, v, t) asks has_interaction(v, u, t))          # method parameter -> parameter of the functional form, where the names differ
 
 
 METHOD_FORWARDS = {
     # method: (target method, properties): thin methods of the classes that only forward (list(...) of the iterator, an alias)
     'interactions': ('interactions_iter', ('C02', 'C08')), 'in_interactions': ('in_interactions_iter', ('C02', 'C08')),
     'out_interactions': ('out_interactions_iter', ('C02', 'C08')), 'order': ('number_of_nodes', ('C02', 'C08')),
+    'has_successor': ('has_interaction', ('C02', 'C08')), 'has_predecessor': ('has_interaction', ('C02', 'C08')),
 }
 
 
@@ -203,7 +204,33 @@ def run_case(cls, fname):
     return out
 
 
+def run_method_case(cls, fname):
+    """has_successor / has_predecessor of the real class against has_interaction on a small directed graph; {clause: detail}"""
+    import dynetx as dn
+    G = getattr(dn, cls)()
+    G.add_interaction(1, 2, 0, 3)
+    G.add_interaction(3, 1, 2, 5)
+    for u in (1, 2, 3):
+        for v in (1, 2, 3):
+            for t in (None, 0, 2, 4, 9):
+                exp = G.has_interaction(u, v, t) if fname == 'has_successor' else G.has_interaction(v, u, t)
+                try:
+                    got = getattr(G, fname)(u, v, t)
+                except Exception as ex:
+                    return {'C02.functional_form.%s.no_exception_of_its_own.%s' % (fname, type(ex).__name__): repr(ex)}
+                if got != exp:
+                    return {'C02.functional_form.%s.passes_its_own.u' % fname: '%s(%r, %r, %r) = %r after add(1,2,0,3); add(3,1,2,5); has_interaction gives %r'
+                            % (fname, u, v, t, got, exp)}
+    return {}
+
+
 def _search(self, engine):
+    if not self.key.startswith('function::') and self.fname in ('has_successor', 'has_predecessor'):
+        v = run_method_case(self.cls, self.fname)
+        if v:
+            return {'violated': v, 'call': '%s.%s on the graph add(1,2,0,3); add(3,1,2,5)' % (self.cls, self.fname),
+                    'replayer': {'module': 'contracts.forward', 'function': 'run_method_case', 'args': [self.cls, self.fname]}}
+        return None
     if not self.key.startswith('function::'):
         return None             # (method-to-method forwarding: the bounded tier compares the two results on real graphs)
     v = run_case(self.cls, self.fname)
